@@ -326,7 +326,8 @@ func length_(computer *ComputedStyle, value pr.DimOrS, fontSize pr.Float, pixels
 		// Convert absolute lengths to pixels
 		result = value.Value * pr.LengthsToPixels[unit]
 	case pr.Em, pr.Ex, pr.Ch, pr.Rem:
-		if fontSize < 0 {
+		ownFontSize := fontSize < 0
+		if ownFontSize {
 			fontSize = computer.GetFontSize().Value
 		}
 		var fonts text.FontConfiguration
@@ -343,7 +344,13 @@ func length_(computer *ComputedStyle, value pr.DimOrS, fontSize pr.Float, pixels
 		case pr.Em:
 			result = value.Value * fontSize
 		case pr.Rem:
-			result = value.Value * computer.rootStyle.fontSize.Value
+			if ownFontSize && computer.isRootElement() {
+				// on the root element, rem refers to the initial value in
+				// font-size only : elsewhere it is its computed font size
+				result = value.Value * fontSize
+			} else {
+				result = value.Value * computer.rootStyle.fontSize.Value
+			}
 		}
 
 	default:
